@@ -980,3 +980,19 @@ B('k18c_general_items_placeholder_unused', ['C18'], 'R18.c', (META, "           
 T('k18c_placeholder_stored_then_continue', ['C18'], (META, "                peri_ctx = {'exc_content': repr(e)}\n            full_ctx.setdefault(peri.group_key, {}).update(peri_ctx)\n",
                                                     "                full_ctx.setdefault(peri.group_key, {}).update({'exc_content': repr(e)})\n                continue\n            full_ctx.setdefault(peri.group_key, {}).update(peri_ctx)\n"))
 T('k18c_placeholder_two_names', ['C18'], (META, "                peri_ctx = {'exc_content': repr(e)}\n", "                failure = repr(e)\n                peri_ctx = {'exc_content': failure}\n"))
+
+# getattr(x, 'resources', default) is the same read as x.resources (a source of R18.a's value flow)
+T('k18_getattr_resources_membership', ['C18'], (META, "        elif arg in route.resources:", "        elif arg in getattr(route, 'resources', {}):"))
+B('k18_getattr_resources_values', ['C18'], 'R18.a', (META, "        r_info['args'] = get_route_arg_info(r)\n",
+                                                     "        r_info['args'] = get_route_arg_info(r)\n        r_info['resources'] = dict((k, _trunc(repr(v))) for k, v in getattr(r, 'resources', {}).items())\n"))
+B('k18_getattr_resources_wrong_key_tested', ['C18'], 'R18.a', (META, "        ret.append({'key': key, 'value': trunc_val})\n    return ret\n", '''        ret.append({'key': key, 'value': trunc_val})
+    for route in _application.routes:
+        for rkey, rval in getattr(route, 'resources', {}).items():
+            if 'secret' in key:
+                trunc_val = '[REDACTED]'
+            else:
+                trunc_val = _trunc(repr(rval))
+            ret.append({'key': '%s (%s)' % (rkey, route.pattern), 'value': trunc_val})
+    return ret
+'''))
+T('k18e_view_endpoint_repr', ['C18'], (META, "        r_info['endpoint'] = get_endpoint_info(r)\n", "        r_info['endpoint'] = get_endpoint_info(r)\n        r_info['endpoint_repr'] = _trunc(repr(r.endpoint))\n"))
